@@ -200,6 +200,18 @@ def calcWitnessSignatureHashRaw (H : Bytes → Bytes) (subScript : Bytes) (sh : 
       else zero32
     .digest (H (H (b0 ++ b1 ++ b2 ++ b3 ++ b4 ++ b5 ++ b6 ++ le32 tx.lockTime ++ le32 hashType)))
 
+def SigHashes.zero : SigHashes := ⟨zero32, zero32, zero32, zero32, zero32, zero32, zero32, zero32⟩
+
+/-- `calcWitnessSignatureHashRaw` called with `sigHashes == nil`: the first read of a midstate is a
+nil-pointer dereference; ANYONECANPAY|NONE and ANYONECANPAY|SINGLE never read one. -/
+def calcWitnessSignatureHashRawNil (H : Bytes → Bytes) (subScript : Bytes) (hashType : UInt32)
+    (tx : Tx) (idx : Nat) (amt : UInt64) : Out :=
+  match tx.ins[idx]? with
+  | none => .err
+  | some _ =>
+    if (hashType &&& 0x80) = 0 ∨ ((hashType &&& 0x1f) ≠ 3 ∧ (hashType &&& 0x1f) ≠ 2) then .panic
+    else calcWitnessSignatureHashRaw H subScript SigHashes.zero hashType tx idx amt
+
 /-- exported `CalcWitnessSigHash` -/
 def CalcWitnessSigHash (H : Bytes → Bytes) (script : Bytes) (sh : SigHashes) (hashType : UInt32)
     (tx : Tx) (idx : Nat) (amt : UInt64) : Out :=
@@ -273,6 +285,16 @@ def calcTaprootSignatureHashRaw (H : Bytes → Bytes) (sh : SigHashes) (hType : 
     else
       .digest (H (H tapSighashTag ++ H tapSighashTag ++
         (m0 ++ m1 ++ m2 ++ [spendType] ++ m3 ++ m4 ++ writeDigestExtensions opts)))
+
+/-- `calcTaprootSignatureHashRaw` called with `sigHashes == nil` -/
+def calcTaprootSignatureHashRawNil (H : Bytes → Bytes) (hType : UInt32) (tx : Tx)
+    (idx : Nat) (fetch : OutPoint → TxOut) (opts : TaprootSigHashOptions) : Out :=
+  if !isValidTaprootSigHash hType then .err else
+  match tx.ins[idx]? with
+  | none => .err
+  | some _ =>
+    if (hType &&& 0x80) ≠ 0x80 ∨ ((hType &&& 3) ≠ 3 ∧ (hType &&& 3) ≠ 2) then .panic
+    else calcTaprootSignatureHashRaw H SigHashes.zero hType tx idx fetch opts
 
 /-! ### sigcache.go -/
 
